@@ -69,6 +69,16 @@ Definition mon_eds (sn : eds_snapshot) (obs : eds_obs) : list N :=
           then code_if (forallb (fun st' => N.eqb (es_active st') (r_name a)) (written_statuses obs)) 15
           else []
       | _, _, _ => []
+      end ++
+      (* explicit validation resumes a paused canary: canary-valid names the new replica set, which is not failed =>
+         every status written makes it the active one *)
+      match eds_active sn e, eds_uptodate sn e, st_canary (e_strategy e) with
+      | Some a, Some u, Some _ =>
+          if negb (N.eqb (r_name a) (r_name u)) && canary_valid (e_annots e) (r_name u) &&
+             negb (canary_failed_rs (r_status u))
+          then code_if (forallb (fun st' => N.eqb (es_active st') (r_name u)) (written_statuses obs)) 16
+          else []
+      | _, _, _ => []
       end
   end.
 
